@@ -222,16 +222,21 @@ Definition event_msg (e : entity) : omsg :=
     [].
 
 (* ---- services (sourcewalk/service.go, j5convert/service.go) ------------------------ *)
-(* path.Join(base, rel) for clean operands *)
-Definition path_join (base rel : bytes) : bytes :=
-  match rel with [] => base | _ => base ++ [47] ++ rel end.
-
 (* split on '/' *)
 Fixpoint split_slash (cur : bytes) (s : bytes) : list bytes :=
   match s with
   | [] => [rev cur]
   | c :: r => if c =? 47 then rev cur :: split_slash [] r else split_slash (c :: cur) r
   end.
+(* path.Clean of a rooted path without "." and ".." elements: empty elements (repeated or
+   trailing slashes) disappear *)
+Definition is_nil {A} (l : list A) : bool := match l with [] => true | _ => false end.
+Definition segments (s : bytes) : list bytes := filter (fun p => negb (is_nil p)) (split_slash [] s).
+Definition clean_path (s : bytes) : bytes := [47] ++ join [47] (segments s).
+(* path.Join(base, rel): empty elements are ignored, the result is cleaned *)
+Definition path_join (base rel : bytes) : bytes :=
+  match rel with [] => clean_path base | _ => clean_path (base ++ [47] ++ rel) end.
+
 (* ":name" -> "{" ++ ToSnake name ++ "}" *)
 Definition conv_part (p : bytes) : bytes :=
   match p with
